@@ -523,7 +523,12 @@ func main() {
 			"whose hash.Hash records the bytes written (digest checked = sha1 of them); the model must reproduce the bytes exactly. " +
 			"Exhaustive: all trees with <= N nodes over names {a,b}, contents {\"\",x,xy}, link targets {a,b}; random: trees of depth <= 3 over larger pools " +
 			"(incl. \\x02 bytes, odd names) each with mutants that differ in exactly one listed way. Oracle: ALL pairs of distinct trees with equal real streams, classified. " +
-			"distinct = distinct trees / unordered pairs; non-trivial = a directory with >= 1 entry (stream cases), a colliding pair (class cases)")
+			"distinct = distinct trees / unordered pairs; non-trivial = a directory with >= 1 entry (stream cases), a colliding pair (class cases). " +
+			"Follow-up streams: (A) paths that are symlinks with absolute targets inside/outside the root (incl. the root itself, doubled slashes, a sibling directory sharing the root as textual prefix, dangling and directory pointees) " +
+			"and symlinks hashed through absolute paths outside the root, next to regular files / relative links / directories with matching bytes: every stream against the model, every pair classified (non-trivial = a symlink path); " +
+			"(B) the same tree created in ascending/descending/shuffled order on /dev/shm and on disk must give one stream, trees whose contents are permuted relative to name order (same and other names) never one stream; " +
+			"(C) random operation sequences (write, remove, copy, Hash with/without recalc, MoveHash, CopyHash, SetHash right/wrong/absolute, build.moveOutput incl. rebuilding the same temporary path) on ONE long-lived hasher per sequence, " +
+			"4 in 5 kept inside the protocol: every returned stream, whether it was recomputed and the protocol tracker's verdict against the memo model (non-trivial = protocol followed throughout); oracle: inside the protocol the stream returned equals what a fresh hasher computes at that moment")
 
 		base := "/dev/shm"
 		if st, err := os.Stat(base); err != nil || !st.IsDir() {
@@ -553,8 +558,12 @@ func main() {
 			VA       variant   `json:"va"`
 			VB       variant   `json:"vb"`
 			Ops      []mop     `json:"ops"`
+			Top      any       `json:"top"`
 		}
 		if c.ReadReplay(&rp) && rp.Kind != "" {
+			if rp.Kind == "top1" { // a single top-level path (a correspondence case): replay it against itself
+				rp.Kind, rp.A, rp.B = "top", rp.Top, rp.Top
+			}
 			replayFollowup(c, rp.Kind, rp.A, rp.B, rp.Tree, rp.Variants, rp.VA, rp.VB, rp.Ops)
 			return
 		}
